@@ -24,6 +24,8 @@ def main():
         jobs += sorted(glob.glob("/verif/seeded/*/patch.diff"))
     if which in ("all", "mutants"):
         jobs += sorted(glob.glob("/verif/mutants/*.diff"))
+    if which in ("all", "benign"):
+        jobs += sorted(glob.glob("/verif/benign/*.diff"))
     res = {}
     with ProcessPoolExecutor(max_workers=8) as ex:
         for path, status, out in ex.map(one, jobs):
@@ -51,6 +53,10 @@ def main():
             muts[mid] = {"status": r["status"], "expected": exp, "expected_fired": hit, "fires": {p: v[:4] for p, v in r["fires"].items()}}
     if muts:
         json.dump(muts, open("/verif/mutants/RESULTS.json", "w"), indent=1, sort_keys=True)
+    ben = {os.path.basename(p)[:-5]: r for p, r in res.items() if "/benign/" in p}
+    if ben:
+        json.dump({k: {"status": v["status"], "alarms": v["fires"]} for k, v in ben.items()}, open("/verif/benign/RESULTS.json", "w"), indent=1, sort_keys=True)
+        print("benign refactorings: %d, raising alarms: %s" % (len(ben), sorted(k for k, v in ben.items() if v["fires"] or v["status"] != "ok")))
     missed = [s for s, v in seeded.items() if not v["caught_by_own_property"]]
     print("seeded: %d, caught by their own property's check: %d, missed: %s" % (len(seeded), len(seeded) - len(missed), missed))
     bad = [m for m, v in muts.items() if v["expected"] and not all(v["expected_fired"])]
